@@ -22,6 +22,8 @@ MUT = {
  "m14_c_len": [('PrCData(TargFile, \'l\', "len", CTargName, CBlockName, ErgLen);', 'PrCData(TargFile, \'l\', "len", CTargName, CBlockName, ErgLen + 1);')],
  "m15_s9_entry": [('fprintf(TargFile, "%04X", LoWord(EntryAdr & 0xffff));', 'fprintf(TargFile, "%04X", LoWord(0));')],
  # (Intel-16 segment rounded to 256 bytes was tried too: output stays valid and decodes right - an equivalent mutant)
+ "m18_firstbank_carry": [('                    FirstBank = False;\n                    break;\n                case eHexFormatTek:', '                    break;\n                case eHexFormatTek:')],
+ "m19_reccnt_carry": [('                RecCnt = ErgLen / GrpLineLen;\n', '                { static Word Keep = 0; if (!Keep) Keep = ErgLen / GrpLineLen; RecCnt = Keep; }\n')],
  "m17_offset": [('                InpStart += Offset;\n                ErgStart = max', '                ErgStart = max')],
 }
 REVERT = ["mos-line-checksum", "mos-terminator-count", "tek-checksums", "line-splitting", "moto-type-after-relocation",
